@@ -5,6 +5,7 @@ CONSTANTS
   HiMod = 32768
   LoMod = 65536
   Retain = 5
+  NoLeader <- NoLeaderInt
 CONSTRAINT Rec
 POSTCONDITION Post
 CHECK_DEADLOCK FALSE
